@@ -10,7 +10,7 @@
 //! product and nothing is stubbed.
 
 #[cfg(kani)]
-const CAP: usize = 9;
+const CAP: usize = 16;
 #[cfg(kani)]
 static mut KEYS: [(u64, u64); CAP] = [(0, 0); CAP];
 #[cfg(kani)]
@@ -35,6 +35,13 @@ macro_rules! slots {
         $m!(6);
         $m!(7);
         $m!(8);
+        $m!(9);
+        $m!(10);
+        $m!(11);
+        $m!(12);
+        $m!(13);
+        $m!(14);
+        $m!(15);
     };
 }
 
@@ -176,6 +183,23 @@ pub fn school<const W: usize>(acc: &mut [u64; W], a: &[u64], b: &[u64]) -> bool 
         let mut j = 0;
         while j < b.len() {
             over |= add_at::<W>(acc, umul(a[i], b[j]), i + j);
+            j += 1;
+        }
+        i += 1;
+    }
+    over
+}
+
+/// schoolbook over Rust's own `u128 *` (no abstraction): acc + a*b into W limbs; returns "did not fit W limbs".
+/// Used with LATTICE operands (few free bits per limb), where the real multiplier circuit is cheap.
+#[inline(always)]
+pub fn school_real<const W: usize>(acc: &mut [u64; W], a: &[u64], b: &[u64]) -> bool {
+    let mut over = false;
+    let mut i = 0;
+    while i < a.len() {
+        let mut j = 0;
+        while j < b.len() {
+            over |= add_at::<W>(acc, (a[i] as u128) * (b[j] as u128), i + j);
             j += 1;
         }
         i += 1;
